@@ -113,13 +113,65 @@ def books(env, spec, N, test_size, batch, ordered=True, A=2, d=1, twin=False, ab
         env.ob('twin.false', False)
 
 
+def books_nn(env, N, test_size, batch, A=2, twin=False):
+    """online run of a Radius bandit with neighbourhood statistics (is_quick=False): the per-batch default evaluation credits
+    the observed reward, else the predicted arm's statistic in the row's own neighbourhood, else its training statistic"""
+    arms = list(LABELS['int'][:A])
+    dec = np.asarray([arms[i % A] for i in range(N)])           # alternating decisions: the statistics are the subject
+    rew = env.reals('r', (N,))
+    ctx = env.reals('x', (N, 1))
+    mab = build(env, ('ucb1', 'radius:cityblock'), arms, 0)
+    radius = mab._imp.radius
+    sim = Sim()([('b', mab)], dec, rew, ctx, test_size=test_size, is_ordered=True, batch_size=batch, is_quick=False, seed=11)
+    sim.run()
+    test = list(sim.test_indices)
+    train = [i for i in range(N) if i not in set(test)]
+    preds = list(sim.bandit_to_predictions['b'])
+    env.ob('one_prediction_per_test_row', len(preds) == len(test))
+    if len(preds) != len(test):
+        return
+    seen = list(train)
+    nb = 0
+    for start in range(0, len(test), batch):
+        rows = test[start:start + batch]
+        for stat, store in (('min', sim.bandit_to_arm_to_stats_min), ('mean', sim.bandit_to_arm_to_stats_avg),
+                            ('max', sim.bandit_to_arm_to_stats_max)):
+            got = store['b'].get(nb)
+            if got is None:
+                env.ob('batch%d.%s.present' % (nb, stat), False)
+                continue
+            credit = {a: [] for a in arms}
+            for off, i in enumerate(rows):
+                p = pyval(preds[start + off])
+                if p == dec[i]:
+                    credit[p].append(rew[i])
+                    continue
+                nbrs = [k for k in seen if env.decide(env.abs(ctx[k][0] - ctx[i][0]) <= radius)]
+                vals = [rew[k] for k in nbrs if dec[k] == p]
+                if nbrs and vals:
+                    credit[p].append(stats_ref(env, vals)[stat])
+                else:
+                    credit[p].append(stats_ref(env, [rew[k] for k in train if dec[k] == p])[stat])
+            for a in arms:
+                env.ob('batch%d.%s[%s].count' % (nb, stat, a), got[a]['count'] == len(credit[a]))
+                if credit[a] and got[a]['count'] == len(credit[a]):
+                    tot = 0
+                    for v in credit[a]:
+                        tot = tot + v
+                    env.ob('batch%d.%s[%s].sum' % (nb, stat, a), env.eq(got[a]['sum'], tot))
+        seen += rows
+        nb += 1
+    if twin:
+        env.ob('twin.false', False)
+
+
 BOUNDS = {
     'quick': dict(rows=4, test_size='0.5 and 0.3', split='ordered (+ one shuffled split with test rows in descending order)', batch_size='0, 1, 2', arms='2 (+1 arm absent from the data)',
                   bandits='EpsilonGreedy(0), UCB1 (context-free), LinUCB'),
     'thorough': dict(rows='5-6', split='ordered and shuffled (sklearn train_test_split, concrete seed)',
                      batch_size='including sizes that do not divide the test set'),
 }
-OUTSIDE = ['std (numerically a derived quantity of the same rows)', 'custom evaluators', 'plots, logs', 'the float test_size '
+OUTSIDE = ['std (numerically a derived quantity of the same rows)', 'neighbourhood statistics other than for Radius / UCB1 online with batch size 1', 'custom evaluators', 'plots, logs', 'the float test_size '
            'arithmetic int(N * (1 - test_size)) is evaluated concretely for the listed sizes']
 ASSUMPTIONS = ['floats are reals', 'environment stubs as in DESIGN.md 2.3']
 
@@ -147,6 +199,9 @@ def scenarios(tier):
                         setup=dict(no_tv=True), bounds=dict(split='shuffled, test rows [3, 2]')))
     out.append(Scenario('ucb1.batch0.ts30', books, dict(spec=('ucb1', None), N=4, test_size=0.3, batch=0), weight=300, shards=4,
                         max_paths=100000, setup=dict(no_tv=True)))
+    out.append(Scenario('radius.online.neighbourhood_stats', books_nn, dict(N=4, test_size=0.5, batch=1), weight=600, shards=8,
+                        max_paths=100000, setup=dict(no_tv=True),
+                        bounds=dict(bandit='UCB1 + Radius(cityblock)', rows=4, batch_size=1, is_quick=False)))
     out.append(Scenario('twin.books', books, dict(spec=('ucb1', None), N=4, test_size=0.5, batch=0, twin=True),
                         setup=dict(no_tv=True), twin=True))
     return out
